@@ -34,6 +34,7 @@ type Program struct {
 	SSAPkg  map[string]*ssa.Package
 	Funcs   map[*ssa.Function]bool // all functions (incl. closures) of module packages
 	cg      *callgraph.Graph
+	callers map[*ssa.Function]map[*ssa.Function]bool
 	// statistics
 	NInstr int
 }
